@@ -177,7 +177,7 @@ def _frame_obligations() -> list[Obligation]:
         allowed_i = allowed_c | {c.origin.fqn.name for c in p.children.values()} | {p.self_origin_fqn.name}
         ok = cvars <= allowed_c and ivars <= allowed_i and {c.content_id.name for c in p.children.values()} <= cvars and {f"F_{k}" for k, kd in kinds.items() if k in comparable and kd != "none"} <= cvars
         o = Obligation(f"FRAME:{name}", "Z", "discharged" if ok else "violated", solver="syntactic (free variables of the generated term)", queries=0)
-        o.detail = {"content_vars": sorted(cvars), "id_vars": sorted(ivars), "accessor_calls": p.accessor_calls, "constructs": p.constructs}
+        o.detail = {"content_vars": sorted(cvars), "id_vars": sorted(ivars), "accessor_calls": p.accessor_calls, "constructs": p.constructs, "helpers_inlined": p.inlined, "assumed": p.assumed}
         if not ok:
             o.signature = f"frame:{name}"
             o.replay = {"frame": name}
